@@ -550,8 +550,8 @@ def grid_order_never_flips(S, E):
 
 
 def phase_string_grid(exe, rep, tier):
-    """every pair of Mm.w.d notations (quick: same or adjacent months) in TZ strings with default and with day-apart offsets and
-    times: a string tz-rs refuses must be refused by C11's criterion (evaluated here independently over a whole 400-year cycle);
+    """every pair of Mm.w.d notations (quick: same or adjacent months) in TZ strings with default and (quick: same month only) with day-apart
+    offsets and times: a string tz-rs refuses must be refused by C11's criterion (evaluated here independently over a whole 400-year cycle);
     a string it accepts is compared with glibc 1 s before and at each of its transitions in a common and in a leap year"""
     nots = [(m, w, d) for m in range(1, 13) for w in range(1, 6) for d in range(7)]
     mid = {n: m_rule_midnights(*n) for n in nots}
@@ -569,8 +569,17 @@ def phase_string_grid(exe, rep, tier):
             dm = (a[0] - b[0]) % 12
             if tier != "thorough" and dm not in (0, 1, 11):
                 continue
-            for v in variants:
+            for vi, v in enumerate(variants):
+                # quick: the day-apart variants only for rules in the same month (where a day matters)
+                if tier != "thorough" and vi > 0 and dm != 0:
+                    continue
                 strings.append((a, b, v))
+    for c0 in range(0, len(strings), 40000):
+        grid_chunk(exe, rep, strings[c0:c0 + 40000], mid, idx)
+    rep.samples.append({"phase": "string_grid", "tz": "%s,M%d.%d.%d%s,M%d.%d.%d%s" % ((strings[len(strings) // 3][2][0],) + strings[len(strings) // 3][0] + (strings[len(strings) // 3][2][1],) + strings[len(strings) // 3][1] + (strings[len(strings) // 3][2][2],))})
+
+
+def grid_chunk(exe, rep, strings, mid, idx):
     req, plan = [], []
     for a, b, v in strings:
         text = "%s,M%d.%d.%d%s,M%d.%d.%d%s" % ((v[0],) + a + (v[1],) + b + (v[2],))
@@ -615,7 +624,6 @@ def phase_string_grid(exe, rep, tier):
             go, gn, gd = glibc_lookup(t)
             if (go, gn, 1 if gd > 0 else 0) != got:
                 rep.violation({"kind": "string", "tz": text, "t": t, "reference": "glibc"}, {"offset": go, "abbr": gn, "isdst": gd}, {"offset": got[0], "abbr": got[1], "isdst": got[2]})
-    rep.samples.append({"phase": "string_grid", "tz": plan[len(plan) // 3][0]})
 
 
 def replay(exe, path):
